@@ -96,6 +96,10 @@ MUTANTS = [
     })?;''', '''    let closure = vm.peek(0).try_as_obj_closure().expect("Expected a function.");''')]},
     {'name': 'P2 receiver kind assumed again in one native', 'prop': 'C02', 'expect': 'P2 / yarel::core::tuple_len / peek(0).try_as_obj_tuple',
      'edits': [(CORE, '    let tuple = receiver!(vm, 0, try_as_obj_tuple, "Tuple");\n    Ok(Value::Number(tuple.elements.len() as f64))', '    let tuple = vm.peek(0).try_as_obj_tuple().expect("Expected ObjTuple");\n    Ok(Value::Number(tuple.elements.len() as f64))')]},
+    {'name': 'P4 vec push compares against its elements while the vec is mutably borrowed', 'prop': 'C02', 'expect': 'P4 / yarel::core::vec_push / RefMut<ObjVec> held across',
+     'edits': [(CORE, "    vec.borrow_mut().elements.push(vm.peek(0));\n\n    Ok(vm.peek(1))", "    let mut borrowed = vec.borrow_mut();\n    if !borrowed.elements.contains(&vm.peek(0)) {\n        borrowed.elements.reserve(1);\n    }\n    borrowed.elements.push(vm.peek(0));\n    drop(borrowed);\n\n    Ok(vm.peek(1))")]},
+    {'name': 'P4 field store formats the replaced value while the instance is mutably borrowed', 'prop': 'C02', 'expect': 'P4 / yarel::vm::Vm::set_property_impl / RefMut<ObjInstance> held across',
+     'edits': [(VM, "        instance.borrow_mut().fields.insert(name, value);\n\n        self.pop();", "        {\n            let mut fields = instance.borrow_mut();\n            if let Some(old) = fields.fields.insert(name, value) {\n                if cfg!(feature = \"debug_trace\") {\n                    println!(\"replaced {}\", old);\n                }\n            }\n        }\n\n        self.pop();")]},
     {'name': 'P3 vec borrowed mutably across string allocation', 'prop': 'C02', 'expect': 'P3 / yarel::core::string_split',
      'edits': [(CORE, '''    for substr in string.as_str().split(delim.as_str()) {
         let new_str = Value::ObjString(vm.new_gc_obj_string(substr));
